@@ -21,8 +21,16 @@ ENV = dict(os.environ, CARGO_NET_OFFLINE="true")
 
 
 def sh(cmd, cwd=None, timeout=1800):
-    p = subprocess.run(cmd, cwd=cwd, shell=isinstance(cmd, str), stdout=subprocess.PIPE, stderr=subprocess.STDOUT, env=ENV, timeout=timeout)
-    return p.returncode, p.stdout.decode(errors="replace")
+    # a mutant may hang the test suite or the harness: `timeout` kills the whole command, the verdict is "killed"
+    if isinstance(cmd, str):
+        cmd = "timeout -k 5 %d sh -c %s" % (timeout, "'" + cmd.replace("'", "'\\''") + "'")
+    else:
+        cmd = ["timeout", "-k", "5", str(timeout)] + cmd
+    p = subprocess.run(cmd, cwd=cwd, shell=isinstance(cmd, str), stdout=subprocess.PIPE, stderr=subprocess.STDOUT, env=ENV)
+    out = p.stdout.decode(errors="replace")
+    if p.returncode in (124, 137):
+        out += "\nTIMEOUT"
+    return p.returncode, out
 
 
 OPS = [
@@ -111,8 +119,10 @@ def main():
         lines[i] = new
         open(path, "w").write("".join(lines))
         verdict = None
-        rc, out = sh("cargo test -p %s --lib --offline -j 8 2>&1 | tail -15" % crate, cwd=WT, timeout=1500)
-        if "error[" in out or "error:" in out and "could not compile" in out:
+        rc, out = sh("cargo test -p %s --lib --offline -j 8 2>&1 | tail -15" % crate, cwd=WT, timeout=600)
+        if "TIMEOUT" in out or rc in (124, 137):
+            verdict = "suite"
+        elif "error[" in out or "error:" in out and "could not compile" in out:
             verdict = "nocompile"
         elif "test result: FAILED" in out or "panicked" in out and "test result: ok" not in out:
             verdict = "suite"
@@ -128,7 +138,7 @@ def main():
                 for s in streams:
                     od = "/tmp/wt/mut-out"
                     shutil.rmtree(od, ignore_errors=True); os.makedirs(od)
-                    rc, out = sh([os.path.join(HC, "target/release/omaha-verif-harness"), s, "--seed", "1", "--tier", "quick", "--out", od], cwd=HC, timeout=1500)
+                    rc, out = sh([os.path.join(HC, "target/release/omaha-verif-harness"), s, "--seed", "1", "--tier", "quick", "--out", od], cwd=HC, timeout=600)
                     if rc != 0:
                         diffs += 1; detail = "harness rc=%d" % rc; break
                     base = os.path.join(od, s)
